@@ -235,6 +235,11 @@ func (t *Tty) Write(b []byte) (int, error) {
 		t.log("Write", 0, true)
 		return 0, ErrInjected
 	}
+	if t.Closed {
+		// a closed descriptor: the bytes go nowhere
+		t.log("Write", 0, true)
+		return 0, os.ErrClosed
+	}
 	t.log("Write", len(b), false)
 	t.WriteOut += len(b)
 	if t.S.TraceOn {
